@@ -47,3 +47,60 @@ Qed.
 End Sort.
 
 Definition sort_strs (l : list str) : list str := isort str_ltb l.
+
+(* ---------------------------------------------------------------- strings / strconv ports *)
+
+Definition is_digit (c : Z) : bool := (48 <=? c) && (c <=? 57).
+
+(* strings.Index(s, sep) for a one-byte separator: index of the first occurrence *)
+Fixpoint index_byte (c : Z) (s : str) : option nat :=
+  match s with
+  | [] => None
+  | x :: r => if x =? c then Some O else option_map S (index_byte c r)
+  end.
+
+(* strings.Split(s, sep) for a one-byte separator *)
+Fixpoint split_byte (c : Z) (s : str) : list str :=
+  match s with
+  | [] => [[]]
+  | x :: r =>
+    match split_byte c r with
+    | [] => [[x]]                      (* unreachable: split never returns [] *)
+    | p :: ps => if x =? c then [] :: p :: ps else (x :: p) :: ps
+    end
+  end.
+
+(* strings.TrimSpace restricted to ASCII white space ('\t' '\n' '\v' '\f' '\r' ' ');
+   the generators of the harness stay inside ASCII for the strings they compare. *)
+Definition is_space (c : Z) : bool := ((9 <=? c) && (c <=? 13)) || (c =? 32).
+Fixpoint trim_left (s : str) : str :=
+  match s with
+  | x :: r => if is_space x then trim_left r else s
+  | [] => []
+  end.
+Definition trim_space (s : str) : str := rev (trim_left (rev (trim_left s))).
+
+Definition max_int64 : Z := 2 ^ 63 - 1.
+Definition min_int64' : Z := - 2 ^ 63.
+
+Fixpoint digits_val (acc : Z) (s : str) : option Z :=
+  match s with
+  | [] => Some acc
+  | x :: r => if is_digit x then digits_val (acc * 10 + (x - 48)) r else None
+  end.
+
+(* strconv.Atoi on a 64-bit platform: [+-]?[0-9]+ within int64 *)
+Definition atoi (s : str) : option Z :=
+  let '(neg, body) := match s with
+                      | 43 :: r => (false, r)
+                      | 45 :: r => (true, r)
+                      | _ => (false, s)
+                      end in
+  match body with
+  | [] => None
+  | _ => match digits_val 0 body with
+         | None => None
+         | Some v => let v' := if neg then - v else v in
+                     if (min_int64' <=? v') && (v' <=? max_int64) then Some v' else None
+         end
+  end.
